@@ -23,6 +23,7 @@ Tie to the code (every run, against VERIF_REPO's current working tree):
 import os
 import re
 
+import c13_depth
 import c13_duration
 import core
 import corr_retry
@@ -52,6 +53,7 @@ RULE = ("for every class: minimal valid instance; each required attribute missin
         "Non-trivial = exactly one constraint violated (distinct by class, constraint, nesting)")
 
 IMPORTS = "Model.Schema Model.Validate Gen.SchemaTables"
+IMPORTS_DEEP = IMPORTS + " Model.ValidateDeep"
 # the statement says that validation FAILS, not with which exception class: accepted / raises is compared;
 # C13_EXACT=1 compares the classes too (they agree today)
 EXACT = os.environ.get("C13_EXACT") == "1"
@@ -1290,11 +1292,39 @@ def run(ctx):
         ctx.count("chain-depth-2")
         made += 1
     lap("generate+implementation")
-    ctx.extra["cases"] = {"valid_instance": len(vi_cases), "verify": len(ver_cases), "spec": len(spec_cases)}
+    # DEPTH / repeated SIBLINGS (harness/c13_depth.py): chains through every recursive construct of the tables, built inside Coq from a depth number
+    deep_vi, deep_ver = [], []
+
+    def emit(coq, claim, impl, show):
+        cid_ = "%s:%s:%s:%d:%s" % (show["violated_class"], show["kind"], show["member"], show["idx"], show["nest"])
+        deep_vi.append(dict(id=cid_, coq="(%s,(%d)%%Z)" % (coq, claim), impl=[impl[0], claim], show=show))
+        deep_ver.append(dict(id="verify:" + cid_, coq=coq, impl=impl[1], show=show))
+    ctx.extra["depth"] = c13_depth.check_chains(ctx, T, B, per_class, obs, emit)
+    lap("depth:chains")
+    ctx.extra["depth"]["sibling_cases"] = c13_depth.check_siblings(ctx, T, B, per_class, obs, emit)
+    ctx.extra["depth"]["width_cases"] = c13_depth.check_width(ctx, T, B, per_class)
+    lap("depth:siblings+width")
+    c13_depth.check_entries(ctx)
+    lap("depth:entry-points")
+    ctx.extra["cases"] = {"valid_instance": len(vi_cases), "verify": len(ver_cases), "spec": len(spec_cases), "deep": len(deep_vi)}
+    corr_retry.correspond(ctx, "deep_valid_instance_spec", IMPORTS_DEEP, vi_spec_expr(), "inst * Z", deep_vi, shard=150, timeout=900)
+    corr_retry.correspond(ctx, "deep_verify", IMPORTS_DEEP, model_expr("verify"), "inst", deep_ver, shard=150, timeout=900)
+    lap("model:deep")
     corr_retry.correspond(ctx, "valid_instance_spec", IMPORTS, vi_spec_expr(), "inst * Z", vi_cases, shard=250, timeout=900)
     lap("model:valid_instance_spec")
     corr_retry.correspond(ctx, "verify", IMPORTS, model_expr("verify"), "inst", ver_cases, shard=150, timeout=900)
     lap("model:verify")
+
+
+def full_per_class(T, B):
+    """the variant lists as run() has them after its `deep:` pass (for the replay of the depth units)"""
+    per_class = {c: B.variants(c) for c in range(len(T.classes))}
+    for cid in range(len(T.classes)):
+        if not any(v[2] is True for v in per_class[cid]):
+            d = B.deep_violated(cid, per_class)
+            if d is not None:
+                per_class[cid] = per_class[cid] + [("deep:" + d[0], "-", True, d[1])]
+    return per_class
 
 
 def _pretty(model):
@@ -1307,7 +1337,11 @@ def cex_search(ctx):
     """a model / implementation disagreement IS a concrete input: name it, so that the replay file carries it"""
     for d in ctx.disagreements[:20]:
         show = d.case.get("show") or {}
-        if d.unit in ("valid_instance_spec", "verify") and "kind" in show:
+        if d.unit in ("deep_valid_instance_spec", "deep_verify"):
+            ctx.oracle_fail("disagreement:%s:%s:%s:%s.%s" % (d.unit, show["nest"], show["kind"].split(":")[0], show["violated_class"], show["member"]),
+                            "%s of %s.%s (%s): the implementation gives %r, the verified model %s" % (
+                                show["kind"], show["violated_class"], show["member"], show["nest"], d.impl, _pretty(d.model)), show["replay"])
+        elif d.unit in ("valid_instance_spec", "verify") and "kind" in show:
             ctx.oracle_fail("disagreement:%s:%s:%s.%s" % (d.unit, show["violated_class"], show["kind"].split(":")[0], show["member"]),
                             "%s of %s.%s (%s): the implementation gives %r, the verified model %s" % (
                                 show["kind"], show["violated_class"], show["member"], show["nest"], d.impl, _pretty(d.model)),
@@ -1385,6 +1419,8 @@ def replay(ctx, payload):
         print(inp["label"])
         print(str(o)[:3000])
         print("obj.verify() ->", outcome(call(o.verify)), "; entry point ->", run_entry(inp["kind"], o))
+    elif u in ("depth", "siblings", "width", "depth-entry"):
+        c13_depth.replay(T, B, full_per_class(T, B), inp)
     elif u == "variant":
         cid = T.qname.index(inp["class"])
         per_class = {c: B.variants(c) for c in range(len(T.classes))}
